@@ -6,7 +6,7 @@ pom     := [g, a, v, [pg, pa, pv], packaging, props, deps, mgmt, profiles]
 props   := [[name, value]...]
 dep     := [g, a, v, type, classifier, scope, optional, [[eg, ea]...]]
 profile := [id, [activeByDefault, jdk, [osname, osfamily, osarch, osversion], [propname, propvalue]], props, deps, mgmt]
-case    := [env, [root, other poms...], jdktable]      env := [jdk, osname, osfamily, osarch, osversion]
+case    := [env, [root, other poms...], jdktable, xmlstyle]      env := [jdk, osname, osfamily, osarch, osversion]
 """
 
 ENVS = [
@@ -25,6 +25,14 @@ VERSIONS = [b"1", b"2", b"3", b"1.5", b"2.0.1", b"4-SNAPSHOT"]
 PROP_NAMES = [b"v1", b"v2", b"v3", b"lib.version", b"grp", b"sc", b"bom.version"]
 # names that collide with Maven's model built-ins (rare in practice, decisive for the lookup priority)
 BUILTIN_LIKE = [b"project.version", b"pom.groupId", b"project.groupId", b"project.parent.version", b"version", b"groupId", b"pom.version"]
+# properties that may be DEFINED WITH AN EMPTY VALUE (<cl></cl>, <cl/>, white space only): for Maven such a
+# property is defined, its placeholder becomes the empty string and it overrides an inherited value
+EMPTYABLE = {b"cl": [b"", b"", b"tests", b"sources"],        # used as <classifier>${cl}</classifier>
+             b"sfx": [b"", b"", b"-beta", b".1"],             # used as <version>2${sfx}</version>
+             b"ety": [b"", b"test-jar", b"jar"],              # <type>${ety}</type>
+             b"esc": [b"", b"", b"test", b"runtime"],         # <scope>${esc}</scope>
+             b"egrp": [b"", b"g", b"h"]}                      # <groupId>${egrp}</groupId>
+NOT_A_VERSION = (b"grp", b"sc") + tuple(EMPTYABLE)
 JDK_SIMPLE = [b"11", b"11.0", b"11.0.8", b"1.8", b"17", b"1.8.0_292", b"21", b"17.0"]
 JDK_SIMPLE_RISKY = [b"11.0.7", b"1", b"1.8.0", b"17.0.1", b"2"]
 JDK_RANGES = [b"[1.8,)", b"[11,)", b"[1.8,11)", b"(,1.8]", b"[11,17)", b"[17,)", b"(,11]", b"[9,12)", b"[1.7,1.9)",
@@ -55,6 +63,7 @@ class Knobs:
         self.mgmt_dup = 0.02
         self.unresolved = 0.04
         self.unmanaged = 0.03
+        self.empty_props = 0.25
         self.missing_bom = 0.0
         self.bad_packaging = 0.02
         self.jdk_bad = 0.01
@@ -78,8 +87,10 @@ class LineageGen:
     def version_text(self, names, root_world=True):
         r = self.rng
         q = r.random()
+        if self.flag("empty_props") and q < 0.12:
+            return r.choice(VERSIONS) + b"${sfx}" if q > 0.01 else b"${sfx}"
         if names and q < 0.30:
-            return b"${" + r.choice([n for n in names if n not in (b"grp", b"sc")]) + b"}"
+            return b"${" + r.choice([n for n in names if n not in NOT_A_VERSION]) + b"}"
         if q < 0.36:
             return b"${project.version}"
         if q < 0.39:
@@ -103,12 +114,24 @@ class LineageGen:
             d[0] = r.choice([b"${project.groupId}", b"${grp}", b"${groupId}"])
         d[2] = b"" if (managed_ok and r.random() < 0.25) else self.version_text(names, root_world)
         d[5] = r.choice([b""] * 6 + [b"compile", b"test", b"provided", b"runtime", b"test", b"${sc}"])
+        if self.flag("empty_props"):
+            u = r.random()
+            if u < 0.25 and d[4] == b"":
+                d[4] = b"${cl}"
+            elif u < 0.33:
+                d[5] = b"${esc}"
+            elif u < 0.345 and d[3] == b"":
+                d[3] = b"${ety}"
+            elif u < 0.355:
+                d[0] = b"${egrp}"
         d[6] = r.choice([b""] * 8 + [b"true", b"false"])
         if r.random() < 0.25:
             n = r.randrange(1, 3)
             d[7] = [[r.choice(GROUPS + [b"*"]), r.choice(ARTIFACTS + [b"*"])] for _ in range(n)]
             if self.flag("excl_placeholder") and r.random() < 0.5:
                 d[7][0][0] = b"${project.groupId}"
+                if self.flag("empty_props") and r.random() < 0.5:
+                    d[7][0][1] = b"x${cl}"
         return d
 
     def gen_list(self, names, n, avoid=(), managed_ok=True, root_world=True):
@@ -130,8 +153,10 @@ class LineageGen:
             name = r.choice(names)
             i = names.index(name)
             q = r.random()
-            lower = [x for x in names[:i] if x not in (b"grp", b"sc")]
-            if name == b"grp":
+            lower = [x for x in names[:i] if x not in NOT_A_VERSION]
+            if name in EMPTYABLE:
+                val = r.choice(EMPTYABLE[name])
+            elif name == b"grp":
                 val = r.choice(GROUPS)
             elif name == b"sc":
                 val = r.choice([b"test", b"provided", b"runtime", b"compile"])
@@ -257,7 +282,9 @@ class LineageGen:
         base = []
         for n in names:
             if n not in have and r.random() < 0.995:
-                if n == b"grp":
+                if n in EMPTYABLE:
+                    base.append([n, r.choice(EMPTYABLE[n])])
+                elif n == b"grp":
                     base.append([n, r.choice(GROUPS)])
                 elif n == b"sc":
                     base.append([n, r.choice([b"test", b"provided"])])
@@ -271,11 +298,14 @@ class LineageGen:
         k = self.k
         self.f = {name: r.random() < getattr(k, name) for name in
                   ("dup_in_list", "profile_same_key", "bom_two_versions", "bom_parent_builtin", "excl_placeholder",
-                   "jdk_risky", "mgmt_dup", "unresolved", "unmanaged", "missing_bom", "bad_packaging", "jdk_bad")}
+                   "jdk_risky", "mgmt_dup", "unresolved", "unmanaged", "missing_bom", "bad_packaging", "jdk_bad",
+                   "empty_props")}
         env = list(r.choice(self.envs))
         names = list(PROP_NAMES)
         if r.random() < 0.25:
             names += r.sample(BUILTIN_LIKE, r.randrange(1, 3))
+        if self.flag("empty_props"):
+            names += list(EMPTYABLE)
         nanc = r.choice([0, 1, 1, 2, 2, 3, 4])
         nbom = r.choice([0, 0, 1, 1, 2, 3])
         if self.flag("bom_two_versions") or self.flag("bom_parent_builtin"):
@@ -351,11 +381,27 @@ class LineageGen:
                                 tgt[7].append(dep(d[0], d[1], r.choice(VERSIONS), d[3], d[4],
                                                   s=r.choice([b"", b"", b"test", b"runtime"]),
                                                   ex=[[b"h", b"*"]] if r.random() < 0.3 else ()))
+        if self.flag("empty_props"):
+            # an empty definition that overrides a non-empty one further up: in a child, in a profile
+            for world in (lineage_poms, bom_poms):
+                defined = [(i, n, v) for i, p in enumerate(world) for n, v in p[5] if n in EMPTYABLE and v != b""]
+                for i, n, v in defined:
+                    if r.random() < 0.6:
+                        if world is lineage_poms and i > 0:
+                            tgt = world[r.randrange(0, i)]
+                        else:
+                            tgt = world[i]
+                        if tgt[8] and r.random() < 0.5:
+                            r.choice(tgt[8])[2].append([n, b""])
+                        elif tgt is not world[i] or world is bom_poms:
+                            tgt[5].append([n, b""])
         others = lineage_poms[1:] + bom_poms + extra
         if others and self.flag("missing_bom"):
             others.pop(r.randrange(len(others)))
         r.shuffle(others)
-        return [env, [lineage_poms[0]] + others, []]
+        # how the XML text is spelled (empty element, self-closing, white space, CDATA, padding); 0: plainly
+        style = r.randrange(1, 1 << 30) if r.random() < 0.7 else 0
+        return [env, [lineage_poms[0]] + others, [], style]
 
 
 def jdk_pairs(case):
